@@ -676,7 +676,10 @@ def write_translated(path):
     import py2lean
     text, errors = py2lean.generate(os.path.join(SRC, "serif"))
     rel, rerrors = py2lean.generate_rel(os.path.join(SRC, "serif"))
-    for pth, txt in ((path, text), (os.path.join(os.path.dirname(path), "TranslatedRel.lean"), rel)):
+    grp, gerrors = py2lean.generate_group(os.path.join(SRC, "serif"))
+    rerrors = rerrors + gerrors
+    for pth, txt in ((path, text), (os.path.join(os.path.dirname(path), "TranslatedRel.lean"), rel),
+                     (os.path.join(os.path.dirname(path), "TranslatedGroup.lean"), grp)):
         old = open(pth).read() if os.path.exists(pth) else None
         if old != txt:
             tmp = pth + ".tmp%d" % os.getpid()
